@@ -67,7 +67,8 @@ Definition sd_empty : setdata := mkSd [] [] [] false None.
 Record obj : Type := mkObj {
   o_ent : nat; o_pk : option Z; o_st : status;
   o_vals : list (option val); o_dbvals : list (option val); o_wbits : list bool;
-  o_sets : list (option setdata); o_pos : option nat }.
+  o_sets : list (option setdata); o_pos : option nat;
+  o_seed : bool }.                        (* member of cache.seeds: known by primary key only, never _db_set_ *)
 
 Definition ikey : Type := (nat * nat * val)%type.          (* entity, slot (0 = primary key, S a = attribute a), value *)
 Definition ikey_eqb (x y : ikey) : bool :=
@@ -83,34 +84,50 @@ Record sess : Type := mkSess {
   s_handles : list oid;                   (* the program's variables *)
   s_db : db;                              (* database as seen inside the current transaction *)
   s_committed : db;                       (* database as last committed *)
-  s_dirty : bool; s_declined : bool }.
+  s_dirty : nat;                          (* 0 = clean; otherwise the first dirty site reached (table below) *)
+  s_declined : bool;
+  s_collstat : list (nat * nat);
+  s_ordsens : bool }.                     (* >= 2 objects were processed in Python-set iteration order since the last flush *)        (* cache.collection_statistics: (entity, attribute) pairs loaded in full once *)
 
-Definition set_objs s x := mkSess x (s_idx s) (s_tosave s) (s_modcoll s) (s_modified s) (s_savedpend s) (s_handles s) (s_db s) (s_committed s) (s_dirty s) (s_declined s).
-Definition set_idx s x := mkSess (s_objs s) x (s_tosave s) (s_modcoll s) (s_modified s) (s_savedpend s) (s_handles s) (s_db s) (s_committed s) (s_dirty s) (s_declined s).
-Definition set_tosave s x := mkSess (s_objs s) (s_idx s) x (s_modcoll s) (s_modified s) (s_savedpend s) (s_handles s) (s_db s) (s_committed s) (s_dirty s) (s_declined s).
-Definition set_modcoll s x := mkSess (s_objs s) (s_idx s) (s_tosave s) x (s_modified s) (s_savedpend s) (s_handles s) (s_db s) (s_committed s) (s_dirty s) (s_declined s).
-Definition set_modified s x := mkSess (s_objs s) (s_idx s) (s_tosave s) (s_modcoll s) x (s_savedpend s) (s_handles s) (s_db s) (s_committed s) (s_dirty s) (s_declined s).
-Definition set_savedpend s x := mkSess (s_objs s) (s_idx s) (s_tosave s) (s_modcoll s) (s_modified s) x (s_handles s) (s_db s) (s_committed s) (s_dirty s) (s_declined s).
-Definition set_handles s x := mkSess (s_objs s) (s_idx s) (s_tosave s) (s_modcoll s) (s_modified s) (s_savedpend s) x (s_db s) (s_committed s) (s_dirty s) (s_declined s).
-Definition set_db s x := mkSess (s_objs s) (s_idx s) (s_tosave s) (s_modcoll s) (s_modified s) (s_savedpend s) (s_handles s) x (s_committed s) (s_dirty s) (s_declined s).
-Definition set_committed s x := mkSess (s_objs s) (s_idx s) (s_tosave s) (s_modcoll s) (s_modified s) (s_savedpend s) (s_handles s) (s_db s) x (s_dirty s) (s_declined s).
-Definition mark_dirty s := mkSess (s_objs s) (s_idx s) (s_tosave s) (s_modcoll s) (s_modified s) (s_savedpend s) (s_handles s) (s_db s) (s_committed s) true (s_declined s).
-Definition mark_declined s := mkSess (s_objs s) (s_idx s) (s_tosave s) (s_modcoll s) (s_modified s) (s_savedpend s) (s_handles s) (s_db s) (s_committed s) (s_dirty s) true.
+Definition set_objs s x := mkSess x (s_idx s) (s_tosave s) (s_modcoll s) (s_modified s) (s_savedpend s) (s_handles s) (s_db s) (s_committed s) (s_dirty s) (s_declined s) (s_collstat s) (s_ordsens s).
+Definition set_idx s x := mkSess (s_objs s) x (s_tosave s) (s_modcoll s) (s_modified s) (s_savedpend s) (s_handles s) (s_db s) (s_committed s) (s_dirty s) (s_declined s) (s_collstat s) (s_ordsens s).
+Definition set_tosave s x := mkSess (s_objs s) (s_idx s) x (s_modcoll s) (s_modified s) (s_savedpend s) (s_handles s) (s_db s) (s_committed s) (s_dirty s) (s_declined s) (s_collstat s) (s_ordsens s).
+Definition set_modcoll s x := mkSess (s_objs s) (s_idx s) (s_tosave s) x (s_modified s) (s_savedpend s) (s_handles s) (s_db s) (s_committed s) (s_dirty s) (s_declined s) (s_collstat s) (s_ordsens s).
+Definition set_modified s x := mkSess (s_objs s) (s_idx s) (s_tosave s) (s_modcoll s) x (s_savedpend s) (s_handles s) (s_db s) (s_committed s) (s_dirty s) (s_declined s) (s_collstat s) (s_ordsens s).
+Definition set_savedpend s x := mkSess (s_objs s) (s_idx s) (s_tosave s) (s_modcoll s) (s_modified s) x (s_handles s) (s_db s) (s_committed s) (s_dirty s) (s_declined s) (s_collstat s) (s_ordsens s).
+Definition set_handles s x := mkSess (s_objs s) (s_idx s) (s_tosave s) (s_modcoll s) (s_modified s) (s_savedpend s) x (s_db s) (s_committed s) (s_dirty s) (s_declined s) (s_collstat s) (s_ordsens s).
+Definition set_db s x := mkSess (s_objs s) (s_idx s) (s_tosave s) (s_modcoll s) (s_modified s) (s_savedpend s) (s_handles s) x (s_committed s) (s_dirty s) (s_declined s) (s_collstat s) (s_ordsens s).
+Definition set_committed s x := mkSess (s_objs s) (s_idx s) (s_tosave s) (s_modcoll s) (s_modified s) (s_savedpend s) (s_handles s) (s_db s) x (s_dirty s) (s_declined s) (s_collstat s) (s_ordsens s).
+Definition mark_dirty s (site : nat) := mkSess (s_objs s) (s_idx s) (s_tosave s) (s_modcoll s) (s_modified s) (s_savedpend s) (s_handles s) (s_db s) (s_committed s) (match s_dirty s with O => site | n => n end) (s_declined s) (s_collstat s) (s_ordsens s).
+Definition set_collstat s x := mkSess (s_objs s) (s_idx s) (s_tosave s) (s_modcoll s) (s_modified s) (s_savedpend s) (s_handles s) (s_db s) (s_committed s) (s_dirty s) (s_declined s) x (s_ordsens s).
+Definition set_ordsens s x := mkSess (s_objs s) (s_idx s) (s_tosave s) (s_modcoll s) (s_modified s) (s_savedpend s) (s_handles s) (s_db s) (s_committed s) (s_dirty s) (s_declined s) (s_collstat s) x.
+Definition mark_declined s := mkSess (s_objs s) (s_idx s) (s_tosave s) (s_modcoll s) (s_modified s) (s_savedpend s) (s_handles s) (s_db s) (s_committed s) (s_dirty s) true (s_collstat s) (s_ordsens s).
 
 Definition init_sess (sch : schema) : sess :=
-  mkSess [] [] [] [] false false [] (db_init sch) (db_init sch) false false.
+  mkSess [] [] [] [] false false [] (db_init sch) (db_init sch) O false [] false.
+
+(* Dirty sites.  Finding sites (the code fails after a partial mutation or corrupts the cache; known findings or legitimate
+   partial failures): 1 failed creation leaves a phantom object; 2 Entity.set fails on a later key after an earlier index update;
+   3 Entity.set fails in a collection argument after index / collection updates; 4 collection assignment fails after cascaded
+   removals; 5 auto-generated id clashes with a cached object, the inserted row stays; 6 a row is loaded over a reference that was
+   written but never loaded; 7 unique-index conflict while loading a row; 8 the row of a created object is loaded.
+   Assertion sites (believed unreachable; a hit during the correspondence run is reported as a broken tie): 20 the database value
+   of a loaded attribute changed; 21 an unwritten attribute has a value but no database value; 22 a row appears in a fully loaded
+   collection; 23 remove: an item survived reverse_remove; 24 assign: items differ after processing; 25 add: a linked item is
+   missing from the collection. *)
 
 (* a fresh cache over the database d (rollback, failed commit, new db_session) *)
-Definition reset_sess (d : db) : sess := mkSess [] [] [] [] false false [] d d false false.
+Definition reset_sess (d : db) : sess := mkSess [] [] [] [] false false [] d d O false [] false.
 
 (* object field setters *)
-Definition ob_set_st ob x := mkObj (o_ent ob) (o_pk ob) x (o_vals ob) (o_dbvals ob) (o_wbits ob) (o_sets ob) (o_pos ob).
-Definition ob_set_pk ob x := mkObj (o_ent ob) x (o_st ob) (o_vals ob) (o_dbvals ob) (o_wbits ob) (o_sets ob) (o_pos ob).
-Definition ob_set_vals ob x := mkObj (o_ent ob) (o_pk ob) (o_st ob) x (o_dbvals ob) (o_wbits ob) (o_sets ob) (o_pos ob).
-Definition ob_set_dbvals ob x := mkObj (o_ent ob) (o_pk ob) (o_st ob) (o_vals ob) x (o_wbits ob) (o_sets ob) (o_pos ob).
-Definition ob_set_wbits ob x := mkObj (o_ent ob) (o_pk ob) (o_st ob) (o_vals ob) (o_dbvals ob) x (o_sets ob) (o_pos ob).
-Definition ob_set_sets ob x := mkObj (o_ent ob) (o_pk ob) (o_st ob) (o_vals ob) (o_dbvals ob) (o_wbits ob) x (o_pos ob).
-Definition ob_set_pos ob x := mkObj (o_ent ob) (o_pk ob) (o_st ob) (o_vals ob) (o_dbvals ob) (o_wbits ob) (o_sets ob) x.
+Definition ob_set_st ob x := mkObj (o_ent ob) (o_pk ob) x (o_vals ob) (o_dbvals ob) (o_wbits ob) (o_sets ob) (o_pos ob) (o_seed ob).
+Definition ob_set_pk ob x := mkObj (o_ent ob) x (o_st ob) (o_vals ob) (o_dbvals ob) (o_wbits ob) (o_sets ob) (o_pos ob) (o_seed ob).
+Definition ob_set_vals ob x := mkObj (o_ent ob) (o_pk ob) (o_st ob) x (o_dbvals ob) (o_wbits ob) (o_sets ob) (o_pos ob) (o_seed ob).
+Definition ob_set_dbvals ob x := mkObj (o_ent ob) (o_pk ob) (o_st ob) (o_vals ob) x (o_wbits ob) (o_sets ob) (o_pos ob) (o_seed ob).
+Definition ob_set_wbits ob x := mkObj (o_ent ob) (o_pk ob) (o_st ob) (o_vals ob) (o_dbvals ob) x (o_sets ob) (o_pos ob) (o_seed ob).
+Definition ob_set_sets ob x := mkObj (o_ent ob) (o_pk ob) (o_st ob) (o_vals ob) (o_dbvals ob) (o_wbits ob) x (o_pos ob) (o_seed ob).
+Definition ob_set_pos ob x := mkObj (o_ent ob) (o_pk ob) (o_st ob) (o_vals ob) (o_dbvals ob) (o_wbits ob) (o_sets ob) x (o_seed ob).
+Definition ob_set_seed ob x := mkObj (o_ent ob) (o_pk ob) (o_st ob) (o_vals ob) (o_dbvals ob) (o_wbits ob) (o_sets ob) (o_pos ob) x.
 
 Definition oval (ob : obj) (a : nat) : option val := nth a (o_vals ob) None.
 Definition odbval (ob : obj) (a : nat) : option val := nth a (o_dbvals ob) None.
@@ -222,7 +239,7 @@ Definition bind {A B} (r : out A) (f : sess -> A -> out B) : out B :=
 
 Definition new_loaded (sch : schema) (e : nat) (pk : Z) : obj :=
   let n := nattrs sch e in
-  mkObj e (Some pk) SLoaded (repeat None n) (repeat None n) (repeat false n) (repeat None n) None.
+  mkObj e (Some pk) SLoaded (repeat None n) (repeat None n) (repeat false n) (repeat None n) None true.
 
 (* _get_from_identity_map_(pkval, 'loaded'): the object registered under the pk, or a new seed *)
 Definition get_or_seed (sch : schema) (s : sess) (e : nat) (pk : Z) : sess * oid :=
@@ -259,78 +276,78 @@ Definition db_rev_remove (s : sess) (owner : oid) (a : nat) (item : oid) : sess 
                              | Some sd => ob_put_set ob a (Some (mkSd (remove_nat item (sd_items sd)) (sd_added sd) (sd_removed sd) (sd_full sd) (sd_count sd)))
                              | None => ob end).
 
-(* first loop of _db_set_ for one attribute: reverse side, dbvals.  Result: does the value go to new_vals? *)
-Definition dbset_phaseA (sch : schema) (s : sess) (o : oid) (e a : nat) (v : val) : out bool :=
+(* _db_set_ for one attribute.  The code runs three loops (reverse sides and dbvals; unique indexes; vals); they touch
+   disjoint data, so the model does all three per attribute.  old = dbvals.get(attr, NOT_LOADED). *)
+Definition dbset_index (sch : schema) (s : sess) (o : oid) (e a : nat) (v : val) : sess :=
+  let old := obj_val s o a in
+  if attr_uniq sch e a && negb (oval_eqb old (Some v)) then
+    let s' := if is_vnone v then s else idx_put s e (S a) v o in
+    match old with
+    | Some ov => if is_vnone ov then s' else idx_del s' e (S a) ov
+    | None => s'
+    end
+  else s.
+
+Definition dbset_attr (sch : schema) (s : sess) (o : oid) (e a : nat) (v : val) : out unit :=
   match get_obj s o, get_attr sch e a with
   | Some ob, Some at_ =>
-    if is_set_kind (a_kind at_) then Ok s false
+    if is_set_kind (a_kind at_) then Ok s tt
     else
-      let old := odbval ob a in
-      if oval_eqb old (Some v) then Ok s false
-      else
-        (* a reference that was written but never loaded: db_update_reverse links the database value although
-           the object keeps the written value (known finding, both ends disagree afterwards) *)
-        let s0 := if owbit ob a && (match old with None => true | Some _ => false end) && is_ref_kind (a_kind at_)
-                  then mark_dirty s else s in
-        let r1 := match a_kind at_ with
-                  | KRef _ r =>
-                    let s1 := match old with Some (VRef x) => db_rev_remove s0 x r o | _ => s0 end in
-                    match v with VRef y => db_rev_add s1 y r o | _ => Ok s1 tt end
-                  | _ => Ok s0 tt
-                  end in
-        match r1 with
-        | Ok s2 _ => Ok (upd_obj s2 o (fun ob2 => ob_put_dbval ob2 a (Some v))) (negb (owbit ob a))
-        | Err s2 er => Err (mark_dirty s2) er
-        end
-  | _, _ => Ok s false
+      match odbval ob a with
+      | Some old => if val_eqb old v then Ok s tt else Err (mark_dirty s 20) EUnrepeatable
+      | None =>
+        if owbit ob a then
+          (* written, never loaded: dbvals is filled in, vals keeps the written value; for a reference db_update_reverse
+             still links the database value (known finding) *)
+          match a_kind at_, v with
+          | KRef _ r, VRef y =>
+            match db_rev_add s y r o with
+            | Ok s1 _ => Ok (mark_dirty (upd_obj s1 o (fun ob2 => ob_put_dbval ob2 a (Some v))) 6) tt
+            | Err s1 er => Err (mark_dirty s1 6) er
+            end
+          | _, _ => Ok (upd_obj s o (fun ob2 => ob_put_dbval ob2 a (Some v))) tt
+          end
+        else
+          match oval ob a with
+          | Some _ => Err (mark_dirty s 21) EAssertion
+          | None =>
+            let conflict := attr_uniq sch e a && negb (is_vnone v) &&
+                            match idx_get s e (S a) v with Some o2 => negb (Nat.eqb o2 o) | None => false end in
+            if conflict then Err (mark_dirty s 7) ETxnIntegrity
+            else
+              let r1 := match a_kind at_, v with
+                        | KRef _ r, VRef y => db_rev_add s y r o
+                        | _, _ => Ok s tt
+                        end in
+              match r1 with
+              | Err s1 er => Err (mark_dirty s1 22) er
+              | Ok s1 _ =>
+                Ok (upd_obj (dbset_index sch s1 o e a v) o (fun ob2 => ob_put_val (ob_put_dbval ob2 a (Some v)) a (Some v))) tt
+              end
+          end
+      end
+  | _, _ => Ok s tt
   end.
 
-Fixpoint dbset_loopA (sch : schema) (s : sess) (o : oid) (e a : nat) (vals : list val) : out (list (nat * val)) :=
+Fixpoint dbset_loop (sch : schema) (s : sess) (o : oid) (e a : nat) (vals : list val) : out unit :=
   match vals with
-  | [] => Ok s []
+  | [] => Ok s tt
   | v :: t =>
-    match dbset_phaseA sch s o e a v with
-    | Ok s1 keep =>
-      match dbset_loopA sch s1 o e (S a) t with
-      | Ok s2 rest => Ok s2 (if keep then (a, v) :: rest else rest)
-      | Err s2 er => Err s2 er
-      end
+    match dbset_attr sch s o e a v with
+    | Ok s1 _ => dbset_loop sch s1 o e (S a) t
     | Err s1 er => Err s1 er
     end
   end.
 
-(* db_update_simple_index would raise TransactionIntegrityError *)
-Definition dbset_conflict (sch : schema) (s : sess) (o : oid) (e : nat) (nv : list (nat * val)) : bool :=
-  existsb (fun p => let '(a, v) := p in
-     attr_uniq sch e a && negb (is_vnone v) && negb (oval_eqb (obj_val s o a) (Some v)) &&
-     match idx_get s e (S a) v with Some o2 => negb (Nat.eqb o2 o) | None => false end) nv.
-
-(* second and third loop of _db_set_ for one attribute, fused: unique index, vals *)
-Definition dbset_phaseBC (sch : schema) (s : sess) (o : oid) (e a : nat) (v : val) : sess :=
-  let old := obj_val s o a in
-  let s1 := if attr_uniq sch e a && negb (oval_eqb old (Some v)) then
-              let s' := if is_vnone v then s else idx_put s e (S a) v o in
-              match old with
-              | Some ov => if is_vnone ov then s' else idx_del s' e (S a) ov
-              | None => s'
-              end
-            else s in
-  upd_obj s1 o (fun ob => ob_put_val ob a (Some v)).
-
 Definition db_set_obj (sch : schema) (s : sess) (o : oid) (e : nat) (vals : list val) : out unit :=
-  match dbset_loopA sch s o e O vals with
-  | Ok s1 nv =>
-    if dbset_conflict sch s1 o e nv then Err (mark_dirty s1) ETxnIntegrity
-    else Ok (fold_left (fun acc p => dbset_phaseBC sch acc o e (fst p) (snd p)) nv s1) tt
-  | Err s1 er => Err s1 er
-  end.
+  dbset_loop sch (upd_obj s o (fun ob => ob_set_seed ob false)) o e O vals.
 
 (* one fetched row: Some o when the object takes part in the result (objects marked for deletion are skipped) *)
 Definition load_row (sch : schema) (s : sess) (e : nat) (r : row) : out (option oid) :=
   let '(s1, vals) := parse_cols sch s e O (r_cols r) in
   let '(s2, o) := get_or_seed sch s1 e (r_pk r) in
   if is_del (obj_st s2 o) then Ok s2 None
-  else if status_eqb (obj_st s2 o) SCreated then Err (mark_dirty s2) EAssertion   (* _db_set_: assert obj._status_ not in created_or_deleted_statuses *)
+  else if status_eqb (obj_st s2 o) SCreated then Err (mark_dirty s2 8) EAssertion   (* _db_set_: assert obj._status_ not in created_or_deleted_statuses *)
   else match db_set_obj sch s2 o e vals with
        | Ok s3 _ => Ok s3 (Some o)
        | Err s3 er => Err s3 er
@@ -350,19 +367,19 @@ Fixpoint load_rows (sch : schema) (s : sess) (e : nat) (rows : list row) : out (
     end
   end.
 
-(* Entity._load_ without the flush: fetch the object's own row *)
+(* Entity._load_ without the flush: one query for the object and every seed of its entity (cache.seeds) *)
+Definition seed_pks (s : sess) (e : nat) : list Z :=
+  flat_map (fun ob => if o_seed ob && Nat.eqb (o_ent ob) e then match o_pk ob with Some z => [z] | None => [] end else []) (s_objs s).
+
 Definition load_obj_noflush (sch : schema) (s : sess) (o : oid) : out unit :=
   match get_obj s o with
   | Some ob =>
     match o_pk ob with
     | Some pk =>
-      match find_row (tab (s_db s) (o_ent ob)) pk with
-      | Some r => match load_row sch s (o_ent ob) r with
-                  | Ok s1 (Some _) => Ok s1 tt
-                  | Ok s1 None => Err s1 EUnrepeatable
-                  | Err s1 er => Err s1 er
-                  end
-      | None => Err s EUnrepeatable
+      let pks := pk :: seed_pks s (o_ent ob) in
+      match load_rows sch s (o_ent ob) (filter (fun r => existsb (Z.eqb (r_pk r)) pks) (tab (s_db s) (o_ent ob))) with
+      | Ok s1 os => if mem_nat o os then Ok s1 tt else Err s1 EUnrepeatable
+      | Err s1 er => Err s1 er
       end
     | None => Err s EUnrepeatable
     end
@@ -390,19 +407,32 @@ Definition coll_items (s : sess) (o : oid) (a : nat) : list oid :=
   | None => []
   end.
 
+(* Set.load(obj): from the second full load of an attribute in a session on (nplus1_threshold = 1) Pony loads the collections of
+   every object of the entity that is in the primary-key index and not yet fully loaded (prefetching) *)
+Definition prefetch_owners (s : sess) (e a : nat) (self : oid) : list oid :=
+  filter (fun o2 => negb (Nat.eqb o2 self) &&
+            match get_obj s o2 with
+            | Some ob => Nat.eqb (o_ent ob) e && negb (status_eqb (o_st ob) SCreated) && negb (is_del (o_st ob)) &&
+                         match o_pk ob with Some _ => true | None => false end &&
+                         match oset ob a with Some sd => negb (sd_full sd) | None => true end
+            | None => false
+            end) (seq O (length (s_objs s))).
+
 Definition coll_load_noflush (sch : schema) (s : sess) (o : oid) (a : nat) : out unit :=
   let s0 := coll_ensure s o a in
   if coll_full s0 o a then Ok s0 tt
   else
     match get_obj s0 o, set_info sch (obj_ent s0 o) a with
     | Some ob, Some (t, r) =>
-      match o_pk ob with
-      | Some pk =>
-        match load_rows sch s0 t (select_eq (s_db s0) t r (VInt pk)) with
-        | Ok s1 _ => Ok (coll_mark_full s1 o a) tt
-        | Err s1 er => Err s1 er
-        end
-      | None => Ok (coll_mark_full s0 o a) tt
+      let e := o_ent ob in
+      let prefetching := existsb (pair_nat_eqb (e, a)) (s_collstat s0) in
+      let owners := o :: (if prefetching then prefetch_owners s0 e a o else []) in
+      let s1 := fold_left (fun acc o2 => coll_ensure acc o2 a) owners s0 in
+      let pks := flat_map (fun o2 => match obj_pk s1 o2 with Some z => [z] | None => [] end) owners in
+      match load_rows sch s1 t (filter (fun r_ => match col r_ r with VInt z => existsb (Z.eqb z) pks | _ => false end) (tab (s_db s1) t)) with
+      | Ok s2 _ => Ok (set_collstat (fold_left (fun acc o2 => coll_mark_full acc o2 a) owners s2)
+                                    (if prefetching then s_collstat s2 else (e, a) :: s_collstat s2)) tt
+      | Err s2 er => Err s2 er
       end
     | _, _ => Ok s0 tt
     end.
@@ -454,7 +484,7 @@ Definition save_created (sch : schema) (s : sess) (o : oid) : out unit :=
       | None =>
         match idx_get s1 e O (VInt newpk) with
         | Some o2 => if Nat.eqb o2 o then finish s1
-                     else Err (mark_dirty s1) ETxnIntegrity     (* the inserted row stays in the transaction: known finding *)
+                     else Err (mark_dirty s1 5) ETxnIntegrity     (* the inserted row stays in the transaction: known finding *)
         | None => finish (idx_put s1 e O (VInt newpk) o)
         end
       end
@@ -585,10 +615,14 @@ Fixpoint flush_loop (sch : schema) (s : sess) (positions : list nat) : out unit 
 Definition flush (sch : schema) (s : sess) : out unit :=
   if s_savedpend s then Err s EAssertion
   else if negb (s_modified s) then Ok s tt
+  else if s_ordsens s && Nat.leb 2 (length (filter (fun x => match x with
+                                                            | Some o => status_eqb (obj_st s o) SCreated && match obj_pk s o with None => true | Some _ => false end
+                                                            | None => false end) (s_tosave s)))
+       then Err (mark_declined s) EOther      (* which object gets which AUTOINCREMENT id depends on set iteration order: not compared *)
   else
     let s1 := calc_modcoll s in
     match flush_loop sch s1 (seq O (length (s_tosave s1))) with
-    | Ok s2 _ => Ok (set_savedpend (set_modified (set_modcoll (set_tosave s2 []) []) false) false) tt
+    | Ok s2 _ => Ok (set_ordsens (set_savedpend (set_modified (set_modcoll (set_tosave s2 []) []) false) false) false) tt
     | Err s2 er => Err s2 er
     end.
 
@@ -730,6 +764,17 @@ Definition has_sd (s : sess) (o : oid) (a : nat) : bool :=
   end.
 Definition put_sd (s : sess) (o : oid) (a : nat) (sd : setdata) : sess := upd_obj s o (fun ob => ob_put_set ob a (Some sd)).
 
+(* one item of the loops `for item in to_add: reverse.__set__(item, obj, undo_funcs)`; the code adds the items to the
+   owner's SetData after the loop (`setdata |= new_items`), the model adds each at once: same final state *)
+Definition sd_add_item (s : sess) (o : oid) (a : nat) (item : oid) : sess :=
+  upd_obj s o (fun ob =>
+    match oset ob a with
+    | Some sd => ob_put_set ob a (Some (mkSd (add_nat item (sd_items sd)) (sd_added sd) (sd_removed sd) (sd_full sd) (sd_count sd)))
+    | None => ob_put_set ob a (Some (mkSd [item] [] [] false None))
+    end).
+Definition item_link (sch : schema) (s : sess) (o : oid) (a r : nat) (item : oid) : sess :=
+  sd_add_item (ref_set_rev sch s item r (VRef o)) o a item.
+
 (* Set.load(obj, items) for one-to-many, without flushing *)
 Definition coll_load_items (sch : schema) (s : sess) (o : oid) (a : nat) (items : list oid) : out unit :=
   let s0 := coll_ensure s o a in
@@ -753,6 +798,11 @@ Definition coll_load_items (sch : schema) (s : sess) (o : oid) (a : nat) (items 
       end
     | None => Ok s0 tt
     end.
+
+(* Pony iterates Python sets of entity instances (hash = address): when two or more objects are processed in one such
+   loop the order in which they are queued for saving is not determined by the program *)
+Definition note_order {A} (s : sess) (l : list A) : sess :=
+  match l with _ :: _ :: _ => set_ordsens s true | _ => s end.
 
 (* items that may not be linked: deleted objects make Attribute.__set__ raise OperationWithDeletedObjectError *)
 Definition any_del (s : sess) (items : list oid) : bool := existsb (fun i => is_del (obj_st s i)) items.
@@ -780,8 +830,10 @@ Definition coll_add (sch : schema) (s : sess) (o : oid) (a : nat) (items : list 
       else
         match set_info sch (obj_ent s1 o) a with
         | Some (_, r_) =>
-          let s2 := fold_left (fun acc i => ref_set_rev sch acc i r_ (VRef o)) items2 s1 in
+          let s2 := fold_left (fun acc i => item_link sch acc o a r_ i) items2 (note_order s1 items2) in
           let sd := get_sd s2 o a in
+          if negb (subset_nat items2 (sd_items sd)) then Err (mark_dirty s2 25) EAssertion
+          else
           let s3 := put_sd s2 o a (bookkeeping_add sd items2 (opt_add (sd_count sd) (Z.of_nat (length items2)))) in
           Ok (set_modified (modcoll_add s3 o a) true) tt
         | None => Ok s1 tt
@@ -833,17 +885,20 @@ Definition coll_assign_gen (del : sess -> oid -> out unit) (sch : schema) (s : s
       if any_del s1 to_add then
         (* the code removes first and fails afterwards; the undo of a cascaded delete does not put a created object back
            into objects_to_save (known finding) *)
-        Err (if set_cascade sch (obj_ent s1 o) a && match to_remove with [] => false | _ => true end then mark_dirty s1 else s1) EDeleted
+        Err (if set_cascade sch (obj_ent s1 o) a && match to_remove with [] => false | _ => true end then mark_dirty s1 4 else s1) EDeleted
       else
         match set_info sch (obj_ent s1 o) a with
         | Some (_, r_) =>
-          let r2 := if set_cascade sch (obj_ent s1 o) a then fold_out del s1 to_remove
-                    else Ok (fold_left (fun acc i => ref_set_rev sch acc i r_ VNone) to_remove s1) tt in
+          let s1' := note_order (note_order s1 to_remove) to_add in
+          let r2 := if set_cascade sch (obj_ent s1 o) a then fold_out del s1' to_remove
+                    else Ok (fold_left (fun acc i => ref_set_rev sch acc i r_ VNone) to_remove s1') tt in
           match r2 with
           | Err s2 er => Err s2 er
           | Ok s2 _ =>
-            let s3 := fold_left (fun acc i => ref_set_rev sch acc i r_ (VRef o)) to_add s2 in
+            let s3 := fold_left (fun acc i => item_link sch acc o a r_ i) to_add s2 in
             let sd := get_sd s3 o a in
+            if negb (seteq_nat (sd_items sd) items) then Err (mark_dirty s3 24) EAssertion
+            else
             let cnt := match sd_count sd with Some _ => Some (Z.of_nat (length items)) | None => None end in
             let sd1 := mkSd items (sd_added sd) (sd_removed sd) (sd_full sd) cnt in
             let sd2 := match to_add with
@@ -873,12 +928,15 @@ Definition coll_remove_gen (del : sess -> oid -> out unit) (sch : schema) (s : s
       let items1 := inter_nat items0 (sd_items (get_sd s1 o a)) in
       match set_info sch (obj_ent s1 o) a with
       | Some (_, r_) =>
-        let r2 := if set_cascade sch (obj_ent s1 o) a then fold_out del s1 items1
-                  else Ok (fold_left (fun acc i => ref_set_rev sch acc i r_ VNone) items1 s1) tt in
+        let s1' := note_order s1 items1 in
+        let r2 := if set_cascade sch (obj_ent s1 o) a then fold_out del s1' items1
+                  else Ok (fold_left (fun acc i => ref_set_rev sch acc i r_ VNone) items1 s1') tt in
         match r2 with
         | Err s2 er => Err s2 er
         | Ok s2 _ =>
           let sd := get_sd s2 o a in
+          if existsb (fun i => mem_nat i (sd_items sd)) items1 then Err (mark_dirty s2 23) EAssertion
+          else
           let s3 := put_sd s2 o a (bookkeeping_remove sd items1 (opt_add (sd_count sd) (- Z.of_nat (length items1)))) in
           Ok (set_modified (modcoll_add s3 o a) true) tt
         end
@@ -909,7 +967,7 @@ Fixpoint delete_obj (fuel : nat) (sch : schema) (s : sess) (o : oid) : out unit 
                           match (if coll_full s1 o a then Ok s1 tt else coll_load_noflush sch s1 o a) with
                           | Err s2 er => Err s2 er
                           | Ok s2 _ => if copy_assert_fails s2 o a then Err s2 EAssertion
-                                       else fold_out (delete_obj f sch) s2 (sd_items (get_sd s2 o a))
+                                       else fold_out (delete_obj f sch) (note_order s2 (sd_items (get_sd s2 o a))) (sd_items (get_sd s2 o a))
                           end
                         else coll_assign_gen (delete_obj f sch) sch s1 o a []
                       end
@@ -932,7 +990,11 @@ Fixpoint delete_obj (fuel : nat) (sch : schema) (s : sess) (o : oid) : out unit 
           match get_obj s3 o with
           | None => Err s3 EOther
           | Some ob3 =>
-            if status_eqb (o_st ob3) SCreated then
+            (* _delete_ keeps `status` and `save_pos` from its start; if the object's own cascade modified it (a child's
+               collection contained it) the stale values queue it twice and the delete overtakes pending updates, which
+               then fail their optimistic checks: not modelled *)
+            if negb (status_eqb (o_st ob3) (o_st ob)) then Err (mark_declined s3) EOther
+            else if status_eqb (o_st ob3) SCreated then
               let s4 := upd_obj (unqueue_slot s3 (o_pos ob3)) o (fun x => ob_set_st (ob_set_pos x None) SCancelled) in
               Ok (match o_pk ob3 with Some pk => idx_del s4 e O (VInt pk) | None => s4 end) tt
             else
@@ -983,7 +1045,7 @@ Definition new_obj_record (e : nat) (pk : option Z) (cs : list cval) (upto : nat
         (repeat None n) (repeat false n)
         (map (fun p => match snd p with CSet _ => if Nat.leb (fst p) upto then Some (mkSd [] [] [] true (Some 0)) else None | CVal _ => None end)
              (combine (seq O n) cs))
-        None.
+        None false.
 
 Definition new_op (sch : schema) (s : sess) (e : nat) (pk : option Z) (kw : list (nat * arg)) : sess * res :=
   match nth_error sch e with
@@ -1013,7 +1075,7 @@ Definition new_op (sch : schema) (s : sess) (e : nat) (pk : option Z) (kw : list
                primary-key index, half initialised and never queued (known finding) *)
             let '(s1, o) := push_obj s (new_obj_record e pk cs j) in
             let s2 := match pk with Some z => idx_put s1 e O (VInt z) o | None => s1 end in
-            (mark_dirty s2, RErr EDeleted)
+            (mark_dirty s2 1, RErr EDeleted)
           | None =>
             let '(s1, o) := push_obj s (new_obj_record e pk cs n) in
             (* references: update_reverse(obj, None, val); collections: Set.__set__(obj, items, undo_funcs) *)
@@ -1025,7 +1087,8 @@ Definition new_op (sch : schema) (s : sess) (e : nat) (pk : option Z) (kw : list
                         | CSet items =>
                           match set_info sch e (fst p) with
                           | Some (_, r_) =>
-                            let acc1 := fold_left (fun ac i => ref_set_rev sch ac i r_ (VRef o)) items acc in
+                            let acc1 := fold_left (fun ac i => item_link sch ac o (fst p) r_ i) items (note_order acc items) in
+                            let acc1 := if seteq_nat (sd_items (get_sd acc1 o (fst p))) items then acc1 else mark_dirty acc1 24 in
                             set_modified (modcoll_add (put_sd acc1 o (fst p) (mkSd items items [] true (Some (Z.of_nat (length items))))) o (fst p)) true
                           | None => acc
                           end
@@ -1168,7 +1231,7 @@ Definition setmany_op (sch : schema) (s : sess) (h : nat) (kw : list (nat * arg)
             (* Entity.set updates reverse sides, then collections, and only then vals: with a reference and a collection
                argument in one call the collection code observes the stale reference; not modelled *)
             if match cavs with [] => false | _ => existsb (fun p => attr_is_ref sch e (fst p)) avs' end then (mark_declined s, RDecline)
-            else if conflict then ((if changed then mark_dirty s_idx_only else s_idx_only), RErr ECacheIndex)
+            else if conflict then ((if changed then mark_dirty s_idx_only 2 else s_idx_only), RErr ECacheIndex)
             else
               (* success path, atomically per attribute *)
               let s3 := fold_left (fun acc p =>
@@ -1179,7 +1242,7 @@ Definition setmany_op (sch : schema) (s : sess) (h : nat) (kw : list (nat * arg)
               | Ok s4 _ => (s4, ROk)
               | Err _ er =>
                 (* a collection assignment failed: reverse sides are undone, cache.indexes is not (known finding) *)
-                ((if changed || Nat.ltb 1 (length cavs) then mark_dirty s_idx_only else s_idx_only), RErr er)
+                ((if changed || Nat.ltb 1 (length cavs) then mark_dirty s_idx_only 3 else s_idx_only), RErr er)
               end
           end
         end
